@@ -19,6 +19,7 @@ from .interp import (
     ExcValue,
     ExtRef,
     FuncRef,
+    GenResult,
     Lambda,
     Opaque,
     RaiseSignal,
@@ -116,6 +117,25 @@ def py_dtype(v) -> str:
     raise AnalysisError(f'no dtype for python value {v!r}')
 
 
+import operator as _operator  # noqa: E402
+
+
+class _PyCallable:
+    """A callable built by the model (operator.methodcaller and the like); called through the vp_call protocol."""
+
+    def __init__(self, fn):
+        self.fn = fn
+
+    def vp_call(self, interp, args, kwargs, node):
+        return self.fn(*args, **kwargs)
+
+
+_OPERATOR_BINARY = {'add': ('add', _operator.add), 'sub': ('sub', _operator.sub), 'mul': ('mul', _operator.mul),
+                    'truediv': ('div', _operator.truediv), 'pow': ('pow', _operator.pow), 'mod': ('mod', _operator.mod),
+                    'floordiv': ('floordiv', _operator.floordiv), 'and_': ('and', _operator.and_), 'or_': ('or', _operator.or_),
+                    'xor': ('xor', _operator.xor), 'matmul': ('matmul', _operator.matmul)}
+
+
 class Model:
     def __init__(self, const_syms: dict | None = None):
         self.binned_mode = False
@@ -174,6 +194,30 @@ class Model:
         interp.event('raw-value', node, unit=repr(x.unit), tainted=x.taint,
                      params=sorted(x.unit.param_syms()) if x.unit else [])
         return r
+
+    def var_setattr(self, interp, obj: SVar, attr: str, val, node):
+        """x.values = ..., x.unit = ..., da.data = ...: the abstract value follows the store (never ignored)."""
+        if attr in ('values', 'value'):
+            if isinstance(val, SVar) and isinstance(val.term, Rat | Vec) and obj.unit is not None and val.kind == 'raw':
+                obj.term = val.term * obj.unit.scale()
+                obj.why = ''
+            else:
+                obj.term, obj.why = None, f'.{attr} overwritten with a value the analysis does not know'
+            return
+        if attr == 'unit':
+            new = parse_unit(val) if isinstance(val, str) else val
+            if isinstance(new, Unit) and obj.unit is not None and isinstance(obj.term, Rat | Vec):
+                obj.term = obj.term / obj.unit.scale() * new.scale()
+            else:
+                obj.term = None
+            obj.unit = new if isinstance(new, Unit) else None
+            return
+        if attr == 'data' and isinstance(val, SVar):
+            obj.term, obj.unit, obj.dtype, obj.why = val.term, val.unit, val.dtype, val.why
+            return
+        if attr in ('variances', 'variance'):
+            return
+        obj.term, obj.why = None, f'.{attr} overwritten'
 
     # ------------------------------------------------------------------
     # constants and attributes of external modules
@@ -470,7 +514,9 @@ class Model:
                 if attr == 'unit':
                     return v.unit
                 if attr == 'constituents':
-                    return {'data': _Constituent(v)}
+                    begin = self.new(interp, None, NO_UNIT, 'int64', v.taint, 'bins begin')
+                    end = self.new(interp, None, NO_UNIT, 'int64', v.taint, 'bins end')
+                    return {'data': _Constituent(v), 'dim': Opaque('dim of the event buffer'), 'begin': begin, 'end': end}
                 if attr in ('coords', 'data', 'masks'):
                     return BoundModel(v, 'bins.' + attr)
                 return BoundModel(v, 'bins.' + attr)
@@ -679,6 +725,27 @@ class Model:
             return self._deepcopy(interp, args[0], deep=path.endswith('deepcopy'))
         if path == 'functools.partial':
             return _Partial(args[0], args[1:], kwargs)
+        if path == 'functools.reduce' and len(args) >= 2 and not isinstance(args[1], Opaque):
+            seq = list(interp.iterate(args[1], node))
+            if len(args) > 2:
+                total = args[2]
+            elif seq:
+                total = seq.pop(0)
+            else:
+                raise RaiseSignal('TypeError', node, interp.where(node), ('reduce() of empty iterable with no initial value',))
+            for x in seq:
+                total = interp.call(args[0], [total, x], {}, node)
+            return total
+        if path == 'operator.methodcaller' and args and isinstance(args[0], str):
+            mname, margs, mkw = args[0], list(args[1:]), dict(kwargs)
+            return _PyCallable(lambda obj, _n=node: interp.call(interp.getattr(obj, mname, _n), margs, mkw, _n))
+        if path == 'operator.attrgetter' and len(args) == 1 and isinstance(args[0], str) and '.' not in args[0]:
+            return _PyCallable(lambda obj, _n=node, _a=args[0]: interp.getattr(obj, _a, _n))
+        if path == 'operator.itemgetter' and len(args) == 1:
+            return _PyCallable(lambda obj, _n=node, _k=args[0]: interp.subscript(obj, _k, _n))
+        if mod == 'operator' and name in _OPERATOR_BINARY and len(args) == 2 and not kwargs:
+            opname, pyop = _OPERATOR_BINARY[name]
+            return interp.binop(opname, pyop, args[0], args[1], node)
         if path == 'itertools.accumulate' and args and not any(isinstance(a, Opaque) for a in args):
             seq = interp.iterate(args[0], node)
             func = args[1] if len(args) > 1 else kwargs.get('func')
@@ -1109,17 +1176,34 @@ class Model:
                 ln = interp.find_method(x.cls, '__len__')
                 if ln is not None:
                     return interp.call_function(ln, [], {}, bound=x)
+                if interp.is_namedtuple(x.cls):
+                    return len(x.cls.dataclass_fields())
             return len(x)
         if name in ('float', 'int', 'bool', 'round') and args and isinstance(args[0], SVar | Opaque):
             x = args[0]
             if isinstance(x, SVar):
                 if name == 'bool':
-                    return Opaque('bool(variable)', cond_term=x.term)
+                    if x.term is None:
+                        return Opaque('bool(variable)', cond_term=x.term)
+                    r = self.new(interp, x.term, DIMENSIONLESS, 'bool', x.taint, x.why)  # the same predicate as a python bool
+                    r.kind = 'raw'
+                    return r
                 r = self.new(interp, x.term if name == 'float' else (Rat.fn(name, x.term) if isinstance(x.term, Rat) else None),
                              DIMENSIONLESS, 'float64' if name == 'float' else 'int64', x.taint, x.why)
                 r.kind = 'raw'
                 return r
             return Opaque(f'{name}(⊤)')
+        if name in ('max', 'min') and kwargs.get('key') is not None and args and not isinstance(args[0], Opaque | SVar):
+            seq = list(interp.iterate(args[0], node)) if len(args) == 1 else list(args)
+            if not seq:
+                if 'default' in kwargs:
+                    return kwargs['default']
+                raise RaiseSignal('ValueError', node, interp.where(node), (f'{name}() arg is an empty sequence',))
+            keys = [interp.call(kwargs['key'], [x], {}, node) for x in seq]
+            if any(isinstance(k, SVar | Opaque | SObj) for k in keys):
+                raise AnalysisError(f'{name}(..., key=...) over abstract keys at {interp.where(node)}')
+            pick = (max if name == 'max' else min)(range(len(seq)), key=lambda i_: keys[i_])  # first extreme element, as in Python
+            return seq[pick]
         if name in ('max', 'min') and any(isinstance(a, SVar | Opaque) for a in args):
             xs = [self.lift(interp, a) for a in args]
             t = None
@@ -1208,6 +1292,28 @@ class Model:
             if all(isinstance(a, int) for a in args):
                 return range(*args)
             return Opaque('range(⊤)')
+        if name == 'iter' and len(args) == 1 and not isinstance(args[0], Opaque | SVar):
+            if isinstance(args[0], GenResult):
+                return args[0]  # an iterator is its own iterator
+            it = GenResult(interp.iterate(args[0], node))
+            return it
+        if name == 'next' and args and not isinstance(args[0], Opaque | SVar):
+            it = args[0]
+            if isinstance(it, GenResult):
+                if it:
+                    return it.pop(0)  # consumed: a later loop over the same iterator continues after it
+                if len(args) > 1:
+                    return args[1]
+                raise RaiseSignal('StopIteration', node, interp.where(node))
+            if hasattr(it, '__next__'):
+                try:
+                    return next(it)
+                except StopIteration:
+                    if len(args) > 1:
+                        return args[1]
+                    raise RaiseSignal('StopIteration', node, interp.where(node)) from None
+            if isinstance(it, list | tuple | dict | str | set):
+                raise RaiseSignal('TypeError', node, interp.where(node), (f"'{type(it).__name__}' object is not an iterator",))
         if name in ('map', 'filter'):
             f = args[0]
             seq = interp.iterate(args[1], node)
